@@ -119,6 +119,26 @@ func ruleA18(r *Run, p *Prog) {
 			if bo, isBo := cv.X.(*ssa.BinOp); isBo && (bo.Op == token.SHR || bo.Op == token.AND) {
 				return
 			}
+			// the low byte of a spelled-out big-endian sequence: byte(v>>8) of the same value is
+			// emitted in the same block (`append(dst, byte(n>>24), byte(n>>16), byte(n>>8), byte(n))`)
+			lowOfSeq := false
+			for _, x := range b.Instrs {
+				c2, ok := x.(*ssa.Convert)
+				if !ok || c2 == cv {
+					continue
+				}
+				if t2, ok := c2.Type().Underlying().(*types.Basic); !ok || t2.Kind() != types.Uint8 {
+					continue
+				}
+				if sh, ok := c2.X.(*ssa.BinOp); ok && sh.Op == token.SHR && sameValue(sh.X, cv.X) {
+					if k, isC := constInt(stripConvert(sh.Y)); isC && k == 8 {
+						lowOfSeq = true
+					}
+				}
+			}
+			if lowOfSeq {
+				return
+			}
 			// only conversions that end up appended to the output
 			appended := false
 			for _, ref := range referrersOf(cv) {
@@ -710,4 +730,15 @@ func bigEndianCountingUp(k ssa.Value, cnt ssa.Value) bool {
 		return true
 	}
 	return false
+}
+
+// stripConvert looks through integer conversions (shift counts are converted to uint).
+func stripConvert(v ssa.Value) ssa.Value {
+	for {
+		c, ok := v.(*ssa.Convert)
+		if !ok {
+			return stripChange(v)
+		}
+		v = c.X
+	}
 }
